@@ -145,9 +145,12 @@ Proof.
   intros s [[n w] op] [Hn Hb]. unfold step_life.
   destruct op as [cap|]; [|split; auto].
   destruct (str_eqb cap [q_apos]); [|split; auto].
-  destruct (life_scan (skipn (n + 1) s) 0 None) eqn:L; [|split; auto].
-  apply life_scan_bound in L. destruct L as [L|[_ L]]; [discriminate|].
-  rewrite skipn_length in L. simpl. split; [lia|]. rewrite firstn_skipn. apply bl_refl.
+  destruct (apos_kind_of (skipn (n + 1) s)); [|split; auto|].
+  - destruct (Nat.leb (n + 3) (List.length s)) eqn:E3; [|split; auto].
+    apply Nat.leb_le in E3. split; auto. exact (bl_cut s n 3 E3).
+  - destruct (life_scan (skipn (n + 1) s) 0 None) eqn:L; [|split; auto].
+    apply life_scan_bound in L. destruct L as [L|[_ L]]; [discriminate|].
+    rewrite skipn_length in L. simpl. split; [lia|]. rewrite firstn_skipn. apply bl_refl.
 Qed.
 
 Lemma open_ml_good : forall s x, open_ml s = Some x -> good s x.
@@ -178,18 +181,28 @@ Proof.
   - inversion H; subst; auto.
 Qed.
 
-Lemma close_ml_bl : forall s cap c w, close_ml s cap = Some (c, w) -> bl (c ++ w) s.
+Lemma close_ml_shape : forall s cap c w, close_ml s cap = Some (c, w) ->
+  exists pos, pos + List.length cap <= List.length s /\ c = blanks (pos + List.length cap) /\ w = skipn (pos + List.length cap) s.
 Proof.
   intros s cap c w H. unfold close_ml in H.
   destruct (find_sub cap s) as [pos0|] eqn:F; [|discriminate].
   apply find_sub_bound in F.
-  assert (B : exists pos, pos + List.length cap <= List.length s /\ c = blanks (pos + List.length cap) /\ w = skipn (pos + List.length cap) s).
-  { destruct (str_eqb cap [q_dq]).
-    - destruct (close_esc (S (List.length s)) s cap pos0) as [pos|] eqn:E; [|discriminate].
-      inversion H; subst. exists pos. split; auto. eapply close_esc_bound; eauto.
-    - inversion H; subst. exists pos0; auto. }
-  destruct B as [pos [Hle [-> ->]]].
+  destruct (str_eqb cap [q_dq]).
+  - destruct (close_esc (S (List.length s)) s cap pos0) as [pos|] eqn:E; [|discriminate].
+    inversion H; subst. exists pos. split; auto. eapply close_esc_bound; eauto.
+  - inversion H; subst. exists pos0; auto.
+Qed.
+
+Lemma close_ml_bl : forall s cap c w, close_ml s cap = Some (c, w) -> bl (c ++ w) s.
+Proof.
+  intros s cap c w H. destruct (close_ml_shape _ _ _ _ H) as [pos [Hle [-> ->]]].
   pose proof (bl_cut s 0 _ Hle) as K. simpl in K. exact K.
+Qed.
+
+Lemma close_ml_shorter : forall s cap c w, close_ml s cap = Some (c, w) -> cap <> [] -> List.length w < List.length s.
+Proof.
+  intros s cap c w H Hc. destruct (close_ml_shape _ _ _ _ H) as [pos [Hle [_ ->]]].
+  rewrite skipn_length. destruct cap; [contradiction|]. simpl in *. lia.
 Qed.
 
 (* ---------- C16_atp_blanking_only ---------- *)
@@ -240,13 +253,8 @@ Proof.
   rewrite (bl_length _ _ H), IHForall2. reflexivity.
 Qed.
 
-(* ---------- the hang (F8): a char literal ' ' or ',' ---------- *)
-Definition hang_line : str := s2l "let c = ' ';".
-Definition hang_tail : str := s2l "' ';".
-
-Lemma hang_open : open_ml hang_tail = Some (0, hang_tail, Some []).
-Proof. vm_compute. reflexivity. Qed.
-
+(* ---------- termination (after the repair of the lifetime block: char literals are recognised, the split lies
+   behind the apostrophe) ---------- *)
 Lemma loop_none : forall f work code, parse_loop (S f) None work code =
   match open_ml work with
   | Some (n, w, o') => match o' with
@@ -260,33 +268,114 @@ Proof. reflexivity. Qed.
 Lemma loop_empty : forall f work code, parse_loop (S f) (Some []) work code = parse_loop f None work code.
 Proof. reflexivity. Qed.
 
-(* a work text on which open_multy_line returns itself with the empty cap is never consumed *)
-Lemma stuck_loops : forall work, open_ml work = Some (0, work, Some []) ->
-  forall fuel o code, (o = None \/ o = Some []) -> parse_loop fuel o work code = OutOfFuel.
+Lemma open_ml_len : forall s n w o, open_ml s = Some (n, w, o) -> n + List.length w = List.length s.
 Proof.
-  intros work E. induction fuel; intros o code Ho; [reflexivity|].
-  destruct Ho as [-> | ->].
-  - rewrite loop_none, E. apply IHfuel. right; reflexivity.
-  - rewrite loop_empty. apply IHfuel. left; reflexivity.
+  intros s n w o H. apply open_ml_good in H. destruct H as [Hn Hb]. apply bl_length in Hb.
+  rewrite app_length, firstn_length in Hb. lia.
 Qed.
 
-Theorem atp_terminates_refuted : forall fuel, parse_loop fuel None hang_line [] = OutOfFuel.
+Definition ne_op (x : st3) : Prop := snd x <> Some [].
+
+Lemma ne_step_find : forall pat k o keep s x, o <> Some [] -> ne_op x -> ne_op (step_find pat k o keep s x).
 Proof.
-  intros fuel. destruct fuel; [reflexivity|].
-  rewrite loop_none.
-  assert (E : open_ml hang_line = Some (8, hang_tail, Some [])) by (vm_compute; reflexivity).
-  rewrite E. apply (stuck_loops hang_tail hang_open). right; reflexivity.
+  intros pat k o keep s [[n w] op] Ho Hx. unfold step_find.
+  destruct (find_sub pat (firstn n s)); auto. unfold ne_op; simpl. destruct keep; auto.
 Qed.
 
-Definition hang_line2 : str := s2l "m(',')".
-Theorem atp_terminates_refuted_comma : forall fuel, parse_loop fuel None hang_line2 [] = OutOfFuel.
+Lemma str_open_cap : forall s pos back cap, str_open s pos = (back, cap) -> cap <> [].
 Proof.
-  intros fuel. destruct fuel; [reflexivity|]. rewrite loop_none.
-  assert (E : open_ml hang_line2 = Some (2, s2l "',')", Some [])) by (vm_compute; reflexivity).
-  rewrite E. apply (stuck_loops (s2l "',')")); [vm_compute; reflexivity | right; reflexivity].
+  intros s pos back cap H. unfold str_open in H.
+  destruct (prec s pos "b"%char); [inversion H; discriminate|].
+  destruct (prec s pos c_hash); [|inversion H; discriminate].
+  destruct (prec s (pos - count_back pos s pos c_hash) "r"%char); [|inversion H; discriminate].
+  destruct (prec s (pos - count_back pos s pos c_hash - 1) "b"%char); inversion H; discriminate.
 Qed.
 
-(* ---------- guarded termination (partial): a line without any opener character is returned verbatim ---------- *)
+Lemma ne_step_string : forall s x, ne_op x -> ne_op (step_string s x).
+Proof.
+  intros s [[n w] op] Hx. unfold step_string.
+  destruct (find_sub [q_dq] (firstn n s)); auto.
+  destruct (str_open (firstn n s) n0) as [back cap] eqn:E. apply str_open_cap in E.
+  unfold ne_op; simpl. intro K. inversion K. contradiction.
+Qed.
+
+(* the empty cap (a lifetime was recognised) always comes with at least the apostrophe consumed *)
+Lemma open_ml_empty_cap : forall s n w, open_ml s = Some (n, w, Some []) -> 1 <= n.
+Proof.
+  intros s n w H. unfold open_ml in H. destruct s as [|a s']; [discriminate|].
+  set (s := a :: s') in *.
+  set (x3 := step_string s _) in H.
+  assert (N3 : ne_op x3).
+  { unfold x3. apply ne_step_string. apply ne_step_find; [discriminate|].
+    destruct (has_slash s).
+    - apply ne_step_find; [discriminate|]. apply ne_step_find; [discriminate|]. unfold ne_op; simpl; discriminate.
+    - unfold ne_op; simpl; discriminate. }
+  destruct x3 as [[n3 w3] op3]. unfold ne_op in N3. simpl in N3.
+  unfold step_life in H.
+  destruct op3 as [cap|].
+  - destruct (str_eqb cap [q_apos]).
+    + destruct (apos_kind_of (skipn (n3 + 1) s)).
+      * destruct (Nat.leb (n3 + 3) (List.length s));
+          (destruct (Nat.eqb (List.length s) n3); [discriminate|]; inversion H; subst; contradiction).
+      * destruct (Nat.eqb (List.length s) n3); [discriminate|]. inversion H; subst. contradiction.
+      * destruct (life_scan (skipn (n3 + 1) s) 0 None).
+        -- destruct (Nat.eqb (List.length s) (n3 + 1 + n0)); [discriminate|]. inversion H; subst. lia.
+        -- destruct (Nat.eqb (List.length s) n3); [discriminate|]. inversion H; subst. contradiction.
+    + destruct (Nat.eqb (List.length s) n3); [discriminate|]. inversion H; subst. contradiction.
+  - destruct (Nat.eqb (List.length s) n3); [discriminate|]. inversion H.
+Qed.
+
+Definition mu (o : option str) (work : str) : nat :=
+  match o with
+  | None => 2 * List.length work + 1
+  | Some [] => 2 * List.length work + 2
+  | Some (_ :: _) => 2 * List.length work
+  end.
+
+Lemma parse_loop_terminates : forall fuel o work code, mu o work < fuel ->
+  exists o' out, parse_loop fuel o work code = Done o' out.
+Proof.
+  induction fuel; intros o work code H; [lia|].
+  destruct o as [cap|].
+  - destruct cap as [|c0 cap'].
+    + rewrite loop_empty. apply IHfuel. simpl in *. lia.
+    + simpl parse_loop.
+      destruct (close_ml work (c0 :: cap')) as [[c w]|] eqn:C; [|eauto].
+      destruct w as [|w0 w']; [eauto|].
+      apply close_ml_shorter in C; [|discriminate].
+      apply IHfuel. simpl in *. lia.
+  - rewrite loop_none.
+    destruct (open_ml work) as [[[n w] o2]|] eqn:O; [|eauto].
+    destruct o2 as [cap|]; [|eauto].
+    pose proof (open_ml_len _ _ _ _ O) as L.
+    apply IHfuel. destruct cap as [|c0 cap'].
+    + apply open_ml_empty_cap in O. simpl in *. lia.
+    + simpl in *. lia.
+Qed.
+
+(* every line, from every carried state: the scanner returns *)
+Theorem atp_terminates : forall o line, exists o' out, parse_line o line = Done o' out.
+Proof.
+  intros o line. unfold parse_line, line_fuel. apply parse_loop_terminates.
+  destruct o as [[|c cap]|]; simpl; lia.
+Qed.
+
+Theorem atp_lines_total : forall ls o, exists cs, parse_lines o ls = inl cs.
+Proof.
+  induction ls as [|l ls IH]; intros o; simpl; [eauto|].
+  destruct (atp_terminates o l) as [o' [out E]]. rewrite E.
+  destruct (IH o') as [cs Ecs]. rewrite Ecs. eauto.
+Qed.
+
+(* the former non-termination witnesses (F8) now scan to the expected text *)
+Example former_hang_blank : parse_line None (s2l "let c = ' '; #[x]") = Done None (s2l "let c =    ; #[x]").
+Proof. vm_compute. reflexivity. Qed.
+Example former_hang_comma : parse_line None (s2l "m(',') {") = Done None (s2l "m(   ) {").
+Proof. vm_compute. reflexivity. Qed.
+Example former_hang_escaped_quote : parse_line None (s2l "fn q() -> [char; 2] { ['\'','x'] }") = Done None (s2l "fn q() -> [char; 2] { [    ,   ] }").
+Proof. vm_compute. reflexivity. Qed.
+
+(* ---------- a line without any opener character is returned verbatim ---------- *)
 Definition plain_char (c : ascii) : bool :=
   negb (Ascii.eqb c "/"%char) && negb (Ascii.eqb c q_apos) && negb (Ascii.eqb c q_dq).
 Definition plain_line (s : str) : bool := forallb plain_char s.
@@ -320,7 +409,7 @@ Proof.
   rewrite Nat.eqb_refl. reflexivity.
 Qed.
 
-Theorem atp_plain_line_verbatim_partial : forall line, plain_line line = true -> parse_line None line = Done None line.
+Theorem atp_plain_line_verbatim : forall line, plain_line line = true -> parse_line None line = Done None line.
 Proof.
   intros line H. unfold parse_line, line_fuel.
   replace (2 * List.length line + 4) with (S (2 * List.length line + 3)) by lia.
